@@ -310,7 +310,7 @@ def r7(ctx):
     # deferred read: what is stored comes from NewRead/RepeatRead arms
     for b in call_sites(body, r"DeferredRead::set$"):
         gs = ctx.guards_at(body, b.idx)
-        ok = any(g_oneof(cl, ("NewRead", "RepeatRead"))(g) for g in gs)
+        ok = any(g_oneof(cl, ("NewRead", "RepeatRead"))(g) for g in gs) or only_via_arms(ctx, body, b.idx, g_oneof(cl, ("NewRead", "RepeatRead")))
         ctx.check(ok, "deferred-read:set-arm", "DeferredRead::set only in read arms", body.where(b.idx))
 
 
